@@ -244,9 +244,24 @@ type blockBuilder struct {
 	rules        []datalog.Rule
 	checks       []datalog.Check
 	context      string
+
+	// base is set by Build: the table the builder started from, cut back to its
+	// initial length, while symbols then holds only what this builder added.
+	base *datalog.SymbolTable
 }
 
 var _ BlockBuilder = (*blockBuilder)(nil)
+
+// resume undoes the split made by Build, so that a builder that has been built
+// can be filled further and built again.
+func (b *blockBuilder) resume() {
+	if b.base == nil {
+		return
+	}
+	*b.base = append((*b.base)[:b.symbolsStart], *b.symbols...)
+	b.symbols = b.base
+	b.base = nil
+}
 
 func NewBlockBuilder(baseSymbols *datalog.SymbolTable) BlockBuilder {
 	return &blockBuilder{
@@ -280,6 +295,7 @@ func (b *blockBuilder) AddBlock(block ParsedBlock) error {
 }
 
 func (b *blockBuilder) AddFact(fact Fact) error {
+	b.resume()
 	dlFact := fact.convert(b.symbols)
 	if !b.facts.Insert(dlFact) {
 		return ErrDuplicateFact
@@ -289,6 +305,7 @@ func (b *blockBuilder) AddFact(fact Fact) error {
 }
 
 func (b *blockBuilder) AddRule(rule Rule) error {
+	b.resume()
 	dlRule := rule.convert(b.symbols)
 	b.rules = append(b.rules, dlRule)
 
@@ -296,6 +313,7 @@ func (b *blockBuilder) AddRule(rule Rule) error {
 }
 
 func (b *blockBuilder) AddCheck(check Check) error {
+	b.resume()
 	dlCheck := check.convert(b.symbols)
 	b.checks = append(b.checks, dlCheck)
 
@@ -307,7 +325,9 @@ func (b *blockBuilder) SetContext(context string) {
 }
 
 func (b *blockBuilder) Build() *Block {
-	b.symbols = b.symbols.SplitOff(b.symbolsStart)
+	b.resume()
+	b.base = b.symbols
+	b.symbols = b.base.SplitOff(b.symbolsStart)
 
 	facts := make(datalog.FactSet, len(*b.facts))
 	copy(facts, *b.facts)
